@@ -52,6 +52,13 @@ func c05States(c mcfg) []c05State {
 	for _, pb := range []uint32{0x08000000, 0x20000000, 0x04000000, 0x10000000, go9p.DMAPPEND} {
 		st = append(st, c05State{fmt.Sprintf("created-file-perm-%#x-open-ORDWR", pb), []mevent{att, dir, {Op: "create", Fid: 1, Name: "np", Perm: pb | 0644, Mode: 2}}})
 	}
+	// a directory whose qid carries more type bits than QTDIR (append-only, exclusive-use, temporary, mounted)
+	for _, pb := range []uint32{go9p.DMAPPEND, go9p.DMEXCL, go9p.DMTMP, go9p.DMMOUNT, go9p.DMAPPEND | go9p.DMEXCL} {
+		st = append(st, c05State{fmt.Sprintf("dir-with-qid-type-bits-%#x-unopened", pb>>24), []mevent{att, {Op: "walk", Fid: 0, Newfid: 2, Names: []string{"d"}},
+			{Op: "create", Fid: 2, Name: "bd", Perm: go9p.DMDIR | pb | 0755, Mode: 0}, {Op: "clunk", Fid: 2}, {Op: "walk", Fid: 0, Newfid: 1, Names: []string{"d", "bd"}}}})
+	}
+	st = append(st, c05State{"file-with-qid-type-bits-unopened", []mevent{att, {Op: "walk", Fid: 0, Newfid: 2, Names: []string{"d"}},
+		{Op: "create", Fid: 2, Name: "bf", Perm: go9p.DMAPPEND | go9p.DMTMP | 0644, Mode: 1}, {Op: "clunk", Fid: 2}, {Op: "walk", Fid: 0, Newfid: 1, Names: []string{"d", "bf"}}}})
 	st = append(st, c05State{"created-dir-open-OREAD", []mevent{att, dir, {Op: "create", Fid: 1, Name: "nd", Perm: go9p.DMDIR | 0755, Mode: 0}}})
 	if c.Auth {
 		st = append(st, c05State{"auth-fid", []mevent{att, {Op: "auth", Afid: 1, Uid: 7, Uname: "glenda"}}})
